@@ -443,7 +443,7 @@ pub fn run_delivery(out: &mut CaseOut, fx: &Fixture, r: &mut dyn RCtx, r_pos: Op
             _ => false,
         };
         if !agree {
-            out.fail(format!("{}: abstract model ({:?}) and R1 ({:?}) disagree - machinery inconsistency", what, e, ref_res.as_ref().map(|_| "Ok")));
+            out.fail_machinery(format!("{}: abstract model ({:?}) and R1 ({:?}) disagree", what, e, ref_res.as_ref().map(|_| "Ok")));
             return;
         }
     }
@@ -1297,7 +1297,7 @@ impl Part for E2aTlc {
         };
         out.transitions += 1;
         if exp_name != e.res || (nx.s_pos, nx.s_dead, nx.r_pos, nx.r_dead) != (e.to.s_pos, e.to.s_dead, e.to.r_pos, e.to.r_dead) {
-            out.fail(format!("{}: the TLA+ model and the Rust model disagree (Rust: {} -> s={} {} r={} {}) - machinery", what, exp_name, nx.s_pos, nx.s_dead, nx.r_pos, nx.r_dead));
+            out.fail_machinery(format!("{}: the TLA+ model and the Rust model disagree (Rust: {} -> s={} {} r={} {})", what, exp_name, nx.s_pos, nx.s_dead, nx.r_pos, nx.r_dead));
             return out;
         }
         // 2. TLC vs the implementation
